@@ -1,7 +1,7 @@
 """C08 - sub-message builders and reply dispatch agree on id, trigger and payload."""
 from . import replyprops
 
-THEOREMS = ["c08_distinct_ids", "c08_id_finds_its_entry", "c08_trigger_covers_exactly_the_declared_outcomes", "c08_builder_stamps",
+THEOREMS = ["c08_distinct_ids", "c08_distinct_names_distinct_ids", "c08_id_finds_its_entry", "c08_trigger_covers_exactly_the_declared_outcomes", "c08_builder_stamps",
             "c08_builder_keeps_message_and_gas_limit", "c08_builder_on_plain_messages", "c08_payload_round_trip"]
 
 
